@@ -38,6 +38,7 @@ package source
 //@   pure
 //@ assumed (*server.DsManager).IsDataset
 //@   pure
+//@   ensures result == isDs(dsm, name)
 //@ spec dsOf(m int, name string) int
 //@ spec isProxyDs(ds int) bool
 //@ assumed (*server.DsManager).GetDataset
@@ -60,11 +61,85 @@ package source
 //@   at call processEntities#1 before
 //@     assert [token-handed-on-is-the-one-the-read-returned] incrG ==> cont != nil && cont.Token == itoa(contG)
 
-// every member of the union is read with its own token: the continuation must have exactly one token per member
-//@ assumed (*UnionDatasetContinuation).GetToken
-//@   pure
-//@ assumed (*UnionDatasetContinuation).AsIncrToken
-//@   pure
+// every member of the union is read with its own token: the continuation must have exactly one token per member, and the
+// union continuation reads as the token of the member that is active
+//@ unit (*UnionDatasetContinuation).GetToken
+//@   prop C08
+//@   requires c != nil && 0 <= c.activeIdx && c.activeIdx < len(c.Tokens)
+//@   requires-inv [TRUSTED-stored-union-tokens-hold-no-null-entries] c != nil ==> (forall i int :: 0 <= i && i < len(c.Tokens) ==> c.Tokens[i] != nil)
+//@   modifies none
+//@   ensures [C08:the-unions-token-is-the-active-members-token] result == c.Tokens[c.activeIdx].Token
+//@ unit (*UnionDatasetContinuation).AsIncrToken
+//@   prop C08
+//@   requires c != nil && 0 <= c.activeIdx && c.activeIdx < len(c.Tokens)
+//@   requires-inv [TRUSTED-stored-union-tokens-hold-no-null-entries] c != nil ==> (forall i int :: 0 <= i && i < len(c.Tokens) ==> c.Tokens[i] != nil)
+//@   modifies none
+//@   ensures [C08:the-unions-position-is-the-active-members-position] forall n int :: 0 <= n && n <= 9223372036854775807 && c.Tokens[c.activeIdx].Token == itoa(n) && c.Tokens[c.activeIdx].Token != "" ==> result == n
+
+// the stored token of a job becomes the continuation its source is read from: the kind the source expects, a plain
+// token unchanged, a job that never ran an empty continuation; a stored token that cannot be parsed is an error (never
+// a silent restart from the beginning). json.Unmarshal fills the continuation it is given (stated here: the prelude's
+// contract only covers entities and generic maps)
+//@ assumed json.Unmarshal
+//@   modifies Entity.*, map[string]interface{}, []interface{}, MultiDatasetContinuation.*, UnionDatasetContinuation.*, StringDatasetContinuation.*, map[string]*source.StringDatasetContinuation, []*source.StringDatasetContinuation, []string
+// Go's comparison of an interface value with a string constant: the value IS that string (type tag string, payload
+// the string, nothing else in the box)
+//@ spec isStrV(x iface, s string) bool = typeof(x) == typeid("string") && cast(x, "string") == s && cast(x, "int") == 0 && !cast(x, "bool") && cast(x, "float64") == 0
+//@ unit source.DecodeToken
+//@   prop C08 C18
+//@   modifies Entity.*, map[string]interface{}, []interface{}, MultiDatasetContinuation.*, UnionDatasetContinuation.*, StringDatasetContinuation.*, map[string]*source.StringDatasetContinuation, []*source.StringDatasetContinuation, []string, []uint8
+//@   ghost parsedG bool = false
+//@   ghost errG iface
+//@   ensures [C08:a-plain-token-is-handed-to-the-source-as-it-was-stored] !isStrV(sourceType, "MultiSource") && !isStrV(sourceType, "UnionDatasetSource") ==> ret1 == nil && typeof(ret0) == typeid("*source.StringDatasetContinuation") && cast(ret0, "*source.StringDatasetContinuation") != nil && cast(ret0, "*source.StringDatasetContinuation").Token == token
+//@   ensures [C18:a-multi-source-is-read-from-a-multi-continuation] ret1 == nil && isStrV(sourceType, "MultiSource") ==> typeof(ret0) == typeid("*source.MultiDatasetContinuation") && cast(ret0, "*source.MultiDatasetContinuation") != nil
+//@   ensures [C08:a-union-source-is-read-from-a-union-continuation] ret1 == nil && isStrV(sourceType, "UnionDatasetSource") ==> typeof(ret0) == typeid("*source.UnionDatasetContinuation") && cast(ret0, "*source.UnionDatasetContinuation") != nil
+//@   ensures [C18:a-multi-job-that-never-ran-starts-from-an-empty-continuation] ret1 == nil && isStrV(sourceType, "MultiSource") && token == "" ==> !parsedG && cast(ret0, "*source.MultiDatasetContinuation").MainToken == "" && cast(ret0, "*source.MultiDatasetContinuation").activeDS == "" && cast(ret0, "*source.MultiDatasetContinuation").DependencyTokens == nil
+//@   ensures [C08:a-union-job-that-never-ran-starts-from-an-empty-continuation] ret1 == nil && isStrV(sourceType, "UnionDatasetSource") && token == "" ==> !parsedG && len(cast(ret0, "*source.UnionDatasetContinuation").Tokens) == 0 && len(cast(ret0, "*source.UnionDatasetContinuation").DatasetNames) == 0 && cast(ret0, "*source.UnionDatasetContinuation").activeIdx == 0
+//@   ensures [C08,C18:a-stored-structured-token-is-always-parsed] (isStrV(sourceType, "MultiSource") || isStrV(sourceType, "UnionDatasetSource")) && token != "" ==> parsedG
+//@   ensures [C08,C18:a-stored-token-that-cannot-be-parsed-is-an-error-not-a-restart] parsedG && errG != nil ==> ret1 == errG && isnil(ret0)
+//@   ensures [C08,C18:a-parsed-token-is-not-an-error] parsedG && errG == nil ==> ret1 == nil
+//@   at call Unmarshal#1 before
+//@     assert [C18:the-stored-token-is-parsed-into-the-continuation-handed-back] bytesStr($arg0) == token && cast($arg1, "*source.MultiDatasetContinuation") == result && fresh(result)
+//@   at call Unmarshal#1
+//@     ghost parsedG := true
+//@     ghost errG := $result
+//@   at call Unmarshal#2 before
+//@     assert [C08:the-stored-token-is-parsed-into-the-continuation-handed-back] bytesStr($arg0) == token && cast($arg1, "*source.UnionDatasetContinuation") == result && fresh(result)
+//@   at call Unmarshal#2
+//@     ghost parsedG := true
+//@     ghost errG := $result
+
+// what is persisted as the job's token: a plain token as it is, a union / multi continuation as the serialisation of
+// exactly that continuation (a failed serialisation is reported and yields no token)
+//@ unit (*StringDatasetContinuation).Encode
+//@   prop C08
+//@   requires c != nil
+//@   modifies none
+//@   ensures [C08:a-plain-token-is-persisted-as-it-is] ret0 == c.Token && ret1 == nil
+//@ unit (*UnionDatasetContinuation).Encode
+//@   prop C08
+//@   ghost bytesG slice
+//@   ghost errG iface
+//@   modifies none
+//@   at call Marshal#1 before
+//@     assert [C08:the-whole-union-continuation-is-what-gets-serialised] cast($arg0, "*source.UnionDatasetContinuation") == c && typeof($arg0) == typeid("*source.UnionDatasetContinuation")
+//@   at call Marshal#1
+//@     ghost bytesG := $result0
+//@     ghost errG := $result1
+//@   ensures [C08:the-persisted-token-is-the-serialised-continuation] ret1 == nil ==> errG == nil && ret0 == bytesStr(bytesG)
+//@   ensures [C08:a-failed-serialisation-is-reported-and-yields-no-token] errG != nil ==> ret1 == errG && ret0 == ""
+//@ unit (*MultiDatasetContinuation).Encode
+//@   prop C18 C08
+//@   ghost bytesG slice
+//@   ghost errG iface
+//@   modifies none
+//@   at call Marshal#1 before
+//@     assert [C18,C08:the-whole-multi-continuation-is-what-gets-serialised] cast($arg0, "*source.MultiDatasetContinuation") == c && typeof($arg0) == typeid("*source.MultiDatasetContinuation")
+//@   at call Marshal#1
+//@     ghost bytesG := $result0
+//@     ghost errG := $result1
+//@   ensures [C18,C08:the-persisted-token-is-the-serialised-continuation] ret1 == nil ==> errG == nil && ret0 == bytesStr(bytesG)
+//@   ensures [C18,C08:a-failed-serialisation-is-reported-and-yields-no-token] errG != nil ==> ret1 == errG && ret0 == ""
 
 //@ unit (*UnionDatasetSource).ReadEntities
 //@   prop C08
@@ -76,9 +151,26 @@ package source
 //@   safe index
 //@   at call IsDataset#1 before
 //@     assert [one-token-per-member-dataset] len(d.Tokens) == len(s.DatasetSources) && 0 <= d.activeIdx && d.activeIdx < len(s.DatasetSources)
+//@   ghost sinceG int = 0
+//@   ghost contG int = 0
+//@   ghost contStrG string = ""
+//@   at call MapEntities#1 before
+//@     assert [C08:in-a-full-sync-the-active-member-is-read-from-its-own-dataset-and-token] datasetSource == s.DatasetSources[d.activeIdx] && $arg0 == dsOf(datasetSource.DatasetManager, datasetSource.DatasetName) && $arg1 == d.Tokens[d.activeIdx].Token && $arg2 == batchSize
+//@   at call MapEntities#1
+//@     ghost contStrG := $result0
+//@   at call AsIncrToken#1
+//@     ghost sinceG := $result
+//@   at call ProcessChanges#1 before
+//@     assert [C08:incrementally-the-active-member-is-read-from-its-own-dataset-and-position] datasetSource == s.DatasetSources[d.activeIdx] && $arg0 == dsOf(datasetSource.DatasetManager, datasetSource.DatasetName) && $arg1 == sinceG && $arg2 == batchSize && $arg3 == datasetSource.LatestOnly
+//@   at call ProcessChanges#1
+//@     ghost contG := $result0
+//@   at call processEntities#1 before
+//@     assert [C08:the-union-continuation-of-this-read-is-handed-on-with-the-batch] cast($arg1, "*source.UnionDatasetContinuation") == d && typeof($arg1) == typeid("*source.UnionDatasetContinuation")
 //@   at call Update#1 before
+//@     assert [C08:the-active-members-token-moves-to-where-its-full-read-stopped] newToken == contStrG
 //@     assume forall i int :: 0 <= i && i < len(d.Tokens) ==> d.Tokens[i] != nil
 //@   at call Update#2 before
+//@     assert [C08:the-active-members-token-moves-to-where-its-incremental-read-stopped] newToken == itoa(contG)
 //@     assume forall i int :: 0 <= i && i < len(d.Tokens) ==> d.Tokens[i] != nil
 //@   loop 1
 //@     invariant -1 <= $i && $i < len(s.DatasetSources) && len(d.Tokens) == $i + 1 && d.activeIdx == 0 && len(d.DatasetNames) == len(d.Tokens)
@@ -88,14 +180,77 @@ package source
 //@     invariant len(d.Tokens) == len(s.DatasetSources) && 0 <= d.activeIdx && d.activeIdx < len(s.DatasetSources)
 //@     invariant forall i int :: 0 <= i && i < len(s.DatasetSources) ==> s.DatasetSources[i] != nil
 
+// a full sync reads a dataset source entity by entity instead of change by change: the flag is set on the source when the
+// sync starts and dropped when it ends, and a union hands both on to every one of its members
+//@ unit (*DatasetSource).StartFullSync
+//@   prop C08
+//@   requires datasetSource != nil
+//@   modifies DatasetSource.isFullSync
+//@   ensures [C08:a-full-sync-is-flagged-on-the-dataset-source] datasetSource.isFullSync
+//@   ensures [C08:other-dataset-sources-keep-their-mode] forall o *DatasetSource :: o != datasetSource ==> o.isFullSync == old(o.isFullSync)
+//@ unit (*DatasetSource).EndFullSync
+//@   prop C08
+//@   requires datasetSource != nil
+//@   modifies DatasetSource.isFullSync
+//@   ensures [C08:after-the-full-sync-the-dataset-source-reads-changes-again] !datasetSource.isFullSync
+//@   ensures [C08:other-dataset-sources-keep-their-mode] forall o *DatasetSource :: o != datasetSource ==> o.isFullSync == old(o.isFullSync)
+//@ unit (*UnionDatasetSource).StartFullSync
+//@   prop C08
+//@   requires s != nil
+//@   requires forall i int :: 0 <= i && i < len(s.DatasetSources) ==> s.DatasetSources[i] != nil
+//@   modifies DatasetSource.isFullSync
+//@   ensures [C08:a-full-sync-of-a-union-is-flagged-on-every-member] forall k int :: 0 <= k && k < len(s.DatasetSources) ==> s.DatasetSources[k].isFullSync
+//@   loop 1
+//@     invariant -1 <= $i && $i < len(s.DatasetSources)
+//@     invariant [C08:every-member-visited-so-far-is-flagged] forall k int :: 0 <= k && k <= $i ==> s.DatasetSources[k].isFullSync
+//@ unit (*UnionDatasetSource).EndFullSync
+//@   prop C08
+//@   requires s != nil
+//@   requires forall i int :: 0 <= i && i < len(s.DatasetSources) ==> s.DatasetSources[i] != nil
+//@   modifies DatasetSource.isFullSync
+//@   ensures [C08:after-the-full-sync-of-a-union-every-member-reads-changes-again] forall k int :: 0 <= k && k < len(s.DatasetSources) ==> !s.DatasetSources[k].isFullSync
+//@   loop 1
+//@     invariant -1 <= $i && $i < len(s.DatasetSources)
+//@     invariant [C08:every-member-visited-so-far-reads-changes-again] forall k int :: 0 <= k && k <= $i ==> !s.DatasetSources[k].isFullSync
+
 // ---------------------------------------------------------------------------
 // C18: one dependency of a MultiSource: the dependency's token moves only after the join results of the changes it covers
 // were collected, to exactly the position findChanges returned; emitted entities are loaded with the main dataset as scope
 
-//@ assumed (*MultiSource).getDatasetFor
-//@   pure
-//@ assumed (*MultiSource).findChanges
-//@   preserves MultiDatasetContinuation.*, StringDatasetContinuation.*, map[string]*source.StringDatasetContinuation, MultiSource.DatasetName, MultiSource.Store, Dependency.*
+// the dataset of a dependency is looked up in the dataset manager under the dependency's own name; a dependency whose
+// dataset does not exist is an error (and never a nil dataset handed on as if it existed)
+// IsDataset(name) is by definition GetDataset(name) != nil (dsmanager.go)
+//@ spec isDs(m int, name string) bool = dsOf(m, name) != 0
+//@ unit (*MultiSource).getDatasetFor
+//@   prop C18
+//@   requires multiSource != nil
+//@   modifies none
+//@   ensures [C18:dependency-dataset-looked-up-under-the-dependencys-own-name] ret1 == nil ==> ret0 == dsOf(multiSource.DatasetManager, dep.Dataset)
+//@   ensures [C18:a-missing-dependency-dataset-is-an-error] !isDs(multiSource.DatasetManager, dep.Dataset) ==> ret1 != nil && ret0 == nil
+//@   ensures [C18:an-existing-dependency-dataset-is-not-an-error] isDs(multiSource.DatasetManager, dep.Dataset) ==> ret1 == nil
+//@   ensures [C18:no-error-means-a-dataset] ret1 == nil ==> ret0 != nil
+// the changes of a dependency dataset are read once per run, from the stored position of that dependency, with the
+// configured batch size and latest-only mode; the position handed back is the one that read returned, and a second
+// dependency on the same dataset is answered from the record of that read (same ids, same position)
+//@ unit (*MultiSource).findChanges
+//@   prop C18
+//@   ghost sinceG int = 0
+//@   ghost contG int = 0
+//@   ghost readG bool = false
+//@   requires multiSource != nil && depDataset != nil && depSince != nil && multiSource.changesCache != nil
+//@   preserves MultiDatasetContinuation.*, StringDatasetContinuation.*, map[string]*source.StringDatasetContinuation, MultiSource.*, Dependency.*, []source.Dependency
+//@   ensures [C18:changes-already-read-in-this-run-are-answered-from-the-record-of-that-dataset] old(has(multiSource.changesCache, depDataset.ID)) ==> !readG && ret2 == nil && ret1 == old(multiSource.changesCache[depDataset.ID].continuation) && ret0 == old(multiSource.changesCache[depDataset.ID].ids)
+//@   ensures [C18:position-returned-is-the-one-the-read-of-the-dependency-dataset-returned] !old(has(multiSource.changesCache, depDataset.ID)) ==> readG && ret1 == contG
+//@   ensures [C18:the-read-is-recorded-under-the-dataset-it-was-made-on] !old(has(multiSource.changesCache, depDataset.ID)) ==> has(multiSource.changesCache, depDataset.ID) && multiSource.changesCache[depDataset.ID].continuation == contG && multiSource.changesCache[depDataset.ID].ids == ret0
+//@   at call AsIncrToken#1 before
+//@     assert [C18:position-taken-from-the-dependencys-own-token] $arg0 == depSince
+//@   at call AsIncrToken#1
+//@     ghost sinceG := $result
+//@   at call ProcessChanges#1 before
+//@     assert [C18:dependency-changes-read-from-the-dependencys-stored-position-with-the-configured-mode] $arg0 == depDataset && $arg1 == sinceG && $arg2 == batchSize && $arg3 == multiSource.LatestOnly
+//@   at call ProcessChanges#1
+//@     ghost contG := $result0
+//@     ghost readG := true
 //@ assumed (*server.Store).DatasetsToInternalIDs
 //@   pure
 //@   ensures mainScope(result, datasets)
@@ -112,7 +267,11 @@ package source
 //@   ghost sinceG int = 0
 //@   ghost mainNamesG slice
 //@   requires multiSource != nil && d != nil && multiSource.Store != nil
-//@   dyncall processEntities preserves MultiDatasetContinuation.*, StringDatasetContinuation.*, map[string]*source.StringDatasetContinuation, MultiSource.DatasetName, MultiSource.Store, Dependency.*
+//@   requires [the-changes-record-of-the-run-exists] multiSource.changesCache != nil
+//@   dyncall processEntities preserves MultiDatasetContinuation.*, StringDatasetContinuation.*, map[string]*source.StringDatasetContinuation, MultiSource.*, Dependency.*, []source.Dependency
+// (the frame is taken on trust: the query goroutine started in the join loop is not interleaved by the engine, and its
+// callees' frames do not mention the classes of this package, so the join loop forgets them)
+//@   frame-assumed preserves MultiSource.*, Dependency.*, []source.Dependency
 //@   at call DatasetsToInternalIDs#1 before
 //@     assert [main-scope-is-the-main-dataset-alone] len(datasets) == 1 && datasets[0] == multiSource.DatasetName
 //@     ghost mainNamesG := datasets
@@ -131,6 +290,43 @@ package source
 //@     invariant d.DependencyTokens != nil && d.DependencyTokens[dep.Dataset] == sinceG && sinceG != 0
 //@   loop 2
 //@     invariant d.DependencyTokens != nil && d.DependencyTokens[dep.Dataset] == sinceG && sinceG != 0
+
+// the callbacks handed to ProcessChanges collect every changed entity exactly once, in change order: the internal id as a
+// start point of the join queries (dependency), the entity itself as a member of the batch (main dataset)
+//@ unit (*MultiSource).findChanges$1
+//@   prop C18
+//@   requires entity != nil
+//@   ensures [C18:every-changed-dependency-entity-becomes-a-start-point-in-change-order] len(ids) == old(len(ids)) + 1 && ids[len(ids) - 1] == entity.InternalID && (forall k int :: 0 <= k && k < old(len(ids)) ==> ids[k] == old(ids[k]))
+//@ unit (*MultiSource).incrementalRead$1
+//@   prop C18
+//@   ensures [C18:every-changed-main-entity-joins-the-batch-in-change-order] len(entities) == old(len(entities)) + 1 && entities[len(entities) - 1] == entity && (forall k int :: 0 <= k && k < old(len(entities)) ==> entities[k] == old(entities[k]))
+
+// one read of a MultiSource: outside a full sync every declared dependency is processed, in declaration order, against
+// the continuation of this very read and before the main dataset; in a full sync the dependencies are skipped and every
+// dependency token is set to the watermark grabbed when the sync started; the main dataset is read last, from the same
+// continuation with no dependency active (so that the position it reads and moves is the main one)
+//@ inline (*MultiSource).resetChangesCache
+//@ unit (*MultiSource).ReadEntities
+//@   prop C18
+//@   ghost depsDoneG int = 0
+//@   requires multiSource != nil && multiSource.Store != nil
+//@   requires typeof(since) == typeid("*source.MultiDatasetContinuation") ==> cast(since, "*source.MultiDatasetContinuation") != nil
+//@   dyncall processEntities preserves MultiDatasetContinuation.*, StringDatasetContinuation.*, map[string]*source.StringDatasetContinuation, MultiSource.*, Dependency.*, []source.Dependency
+//@   at call processDependency#1 before
+//@     assert [C18:every-declared-dependency-is-processed-in-order-against-the-continuation-of-this-read] $arg2.Dataset == multiSource.Dependencies[$i1 + 1].Dataset && $arg2.Joins == multiSource.Dependencies[$i1 + 1].Joins && $arg3 == cast(since, "*source.MultiDatasetContinuation") && $arg4 == batchSize && $arg0 == multiSource && depsDoneG == $i1 + 1
+//@     ghost depsDoneG := depsDoneG + 1
+//@   at call incrementalRead#1 before
+//@     assert [C18:the-main-dataset-is-read-last-from-the-same-continuation-with-no-dependency-active] cast(since, "*source.MultiDatasetContinuation").activeDS == "" && $arg1 == since && $arg2 == batchSize && $arg4 == dsOf(multiSource.DatasetManager, multiSource.DatasetName) && $arg0 == multiSource
+//@     assert [C18:dependencies-are-skipped-only-in-a-full-sync] !multiSource.isFullSync ==> depsDoneG == len(multiSource.Dependencies)
+//@     assert [C18:in-a-full-sync-every-dependency-token-is-set-to-the-watermark-grabbed-at-its-start] multiSource.isFullSync ==> (forall k string :: has(multiSource.waterMarks, k) ==> has(d.DependencyTokens, k) && d.DependencyTokens[k] != nil && d.DependencyTokens[k].Token == itoa(multiSource.waterMarks[k]))
+//@   loop 1
+//@     invariant -1 <= $i && $i < len(multiSource.Dependencies) && depsDoneG == $i + 1 && multiSource.changesCache != nil && multiSource.Store != nil
+//@     invariant [C18:dependencies-are-processed-only-outside-a-full-sync] !multiSource.isFullSync
+//@   loop 2
+//@     invariant [C18:watermarks-replace-the-dependency-tokens-only-in-a-full-sync] multiSource.isFullSync
+//@     invariant forall k string :: visited(k) ==> d.DependencyTokens != nil && has(d.DependencyTokens, k)
+//@     invariant forall k string :: visited(k) ==> d.DependencyTokens[k] != nil && allocated(d.DependencyTokens[k])
+//@     invariant [C18:every-dependency-token-visited-so-far-is-at-its-watermark] forall k string :: visited(k) ==> d.DependencyTokens[k].Token == itoa(multiSource.waterMarks[k])
 
 // implicit dependencies: every join hop of every declared dependency whose dataset is neither a proxy nor the main dataset
 // is tracked as a dependency of its own, with the remaining hops as its join path
@@ -203,12 +399,36 @@ package source
 //@   ghost dsG *server.Dataset = nil
 //@   ghost wmG int = 0
 //@   requires multiSource != nil
+//@   modifies MultiSource.waterMarks, map[string]uint64, Dependency.*
 //@   at call getDatasetFor#1 before
 //@     assert [C18:watermark-taken-from-the-dependencys-own-dataset] dep.Dataset == multiSource.Dependencies[$i1 + 1].Dataset
 //@   at call getDatasetFor#1
 //@     ghost dsG := $result0
 //@   at call GetChangesWatermark#1 before
 //@     assert [C18:watermark-read-from-the-dataset-just-looked-up] $arg0 == dsG
+//@     assert [C18:watermark-read-from-the-dataset-registered-under-the-dependencys-name] $arg0 == dsOf(multiSource.DatasetManager, multiSource.Dependencies[$i1 + 1].Dataset)
+//@   at call GetChangesWatermark#1
+//@     ghost wmG := $result0
+//@   ensures [C18:a-successful-grab-leaves-a-watermark-for-every-dependency] result == nil ==> multiSource.waterMarks != nil && (forall k int :: 0 <= k && k < len(multiSource.Dependencies) ==> has(multiSource.waterMarks, multiSource.Dependencies[k].Dataset))
+//@   ensures [C18:watermarks-start-from-a-new-table-on-every-grab] fresh(multiSource.waterMarks)
+//@   loop 1
+//@     invariant -1 <= $i && $i < len(multiSource.Dependencies) && multiSource.waterMarks != nil && fresh(multiSource.waterMarks)
+//@     invariant forall k int :: 0 <= k && k <= $i ==> has(multiSource.waterMarks, multiSource.Dependencies[k].Dataset)
+//@     invariant [C18:the-watermark-just-read-is-stored-under-the-dependencys-own-name] $i >= 0 ==> multiSource.waterMarks[multiSource.Dependencies[$i].Dataset] == wmG
+
+// a full sync of a MultiSource is flagged on the source (the next reads skip the dependencies and take the watermarks
+// instead; the watermarks are grabbed by the call of grabWatermarks, verified above), and the flag is dropped when the
+// sync ends
+//@ unit (*MultiSource).StartFullSync
+//@   prop C18
+//@   requires multiSource != nil
+//@   modifies MultiSource.isFullSync, MultiSource.waterMarks, map[string]uint64, Dependency.*
+//@   ensures [C18:a-full-sync-is-flagged-on-the-source] multiSource.isFullSync
+//@ unit (*MultiSource).EndFullSync
+//@   prop C18
+//@   requires multiSource != nil
+//@   modifies MultiSource.isFullSync
+//@   ensures [C18:after-the-full-sync-the-dependencies-are-processed-again] !multiSource.isFullSync
 
 // ---------------------------------------------------------------------------
 // C11 / C10: the HTTP dataset source ends every successful read with one closing page (the rest of the stream, or an empty
